@@ -70,9 +70,9 @@ func (e *Engine) verify(t *Target) {
 	e.pure = nil // memoised spec results depend on what is opaque
 	if o := argVal(t.D, "opaque"); o != "" {
 		for _, nm := range strings.Split(o, ",") {
-			fn := t.Fn.Pkg.Func(nm)
+			fn := resolveFn(e.all, t.Fn.Pkg.Pkg.Path(), nm)
 			if fn == nil {
-				e.errs = append(e.errs, "opaque spec function not found: "+nm)
+				e.errs = append(e.errs, "opaque function not found: "+nm)
 				return
 			}
 			e.opaqueT[fn.String()] = true
@@ -122,6 +122,13 @@ func (e *Engine) verify2(t *Target) {
 		}
 	}
 	e.globalInvariants(s, t)
+	if fn.Name() == "init" && fn.Synthetic != "" { // the package initialiser runs once: its guard is still false
+		if g, ok := fn.Pkg.Members["init$guard"].(*ssa.Global); ok {
+			s.spec++
+			e.store(s, e.globalPtr(s, g), boolT(false))
+			s.spec--
+		}
+	}
 	if t.D.Pre != "" {
 		pre := e.specFunc(t, t.D.Pre)
 		var pa []Val
